@@ -135,6 +135,81 @@ PROPS["C09"] = dict(
     level_note="Trusted: oracle/ref.hpp::reserved and host_ok, sanitizers, shim.",
 )
 
+PROPS["C07"] = dict(
+    level="exploration",
+    default_binary="c07",
+    binaries={"c07": dict(src=["props/c07.cpp"], variants=["dflt"])},
+    stages=[
+        stage("corpus"),
+        stage("table"),
+        stage("random", kind="rc", quick=3000, thorough=60000, max_size=100),
+    ],
+    rule="Valid, non-reserved host names without root dot whose last label is: every row of data/punycode.csv (as is / upper / alternating case, "
+         "after 1-4 leading labels), every proper prefix and proper suffix of a row, one-character extensions at either end, substitutions at 3 "
+         "(quick) or all (thorough) positions, hyphenated and doubled neighbours, the row used as first label, the row alone (single label), the "
+         "U-label spelling of every IDN row (mode 6531), random labels and mutated rows, and every line of data/tld-domains.txt. Observed through "
+         "is_<mode>_email(tld on)->rc, eav_is_email with all / no class bits allowed, is_tld and is_utf8_domain. Every case is a table row or a "
+         "near miss of one (non-trivial); distinct by domain hash.",
+    assumptions=["oracle = data/punycode.csv of the working tree parsed by an independent RFC 4180 reader + the documented class rule",
+                 "U-label forms are converted by the harness with libidn2 (trusted base); domains the IDN library refuses are skipped in mode 6531"],
+    min_evaluations=dict(quick=500_000, thorough=2_000_000),
+    technique="differential against the CSV-derived table model: complete enumeration of all 1591 rows and their near misses in 4 modes, plus rapidcheck generation",
+    level_text="Exploration against an explicit table model; all rows and their one-edit neighbourhoods are enumerated completely.",
+    level_note="Trusted: the CSV reader and class rule in oracle/ref.hpp, libidn2, sanitizers, shim.",
+)
+
+PROPS["C08"] = dict(
+    level="exploration",
+    default_binary="c08",
+    binaries={"c08": dict(src=["props/c08.cpp"], variants=["dflt"])},
+    stages=[
+        stage("defaults", workers=1),
+        stage("callback"),
+        stage("real"),
+    ],
+    rule="Complete enumeration: all 2048 values of allow_tld bits 0-10 x {caller-installed callback returning each class 1-9, 0 and every negative "
+         "code -1..-35, in the ASCII and the UTF-8 dispatch} x tld_check {0,1}; and x real addresses (two table rows per class taken from the CSV "
+         "at run time, reserved names, unlisted TLD, non-FQDN, IPv4/IPv6 literals, an IDN TLD in both spellings) x 4 modes x tld_check {0,1}, plus "
+         "bits above 10; eav_init defaults (fields and behaviour, three pre-fills of the raw block). Non-trivial = a class result together with a "
+         "mask that is neither empty nor full (the mask discriminates); distinct by (mode, tld_check, result/address, mask) hash.",
+    assumptions=["class<->bit<->error-code pairing is by the *names* of the documented constants (EAV_TLD_X, TLD_TYPE_X, EEAV_TLD_X)",
+                 "callbacks return 0-9 or a negative error code (10+ reaches the documented abort)"],
+    min_evaluations=dict(quick=1_000_000, thorough=1_000_000),
+    technique="complete enumeration of the finite policy space (2^11 masks x classes x modes x tld_check) against the policy formula, through a caller-installed callback and real addresses",
+    level_text="The quantifier is finite and is enumerated completely on every run (exhaustive: true); the oracle is the documented policy formula.",
+    level_note="Trusted: the policy formula in props/c08.cpp, the CSV reader, sanitizers, shim (installs callbacks through the public ascii_cb/utf8_cb fields).",
+)
+
+PROPS["C11"] = dict(
+    level="translation_validation",
+    default_binary="c11",
+    binaries={"c11": dict(src=["props/c11.cpp"], variants=["dflt"]),
+              "c11py": dict(script="tools/c11_py.py", interp="python3-vt")},
+    stages=[
+        stage("regen", binary="c11py", workers=1),
+        stage("rows"),
+        stage("random", kind="rc", quick=2000, thorough=40000, max_size=100),
+        stage("gencsv", binary="c11py", workers=8, quick=15, thorough=400),
+    ],
+    rule="Programs: util/gentld.pl and util/gen_utf8_pass_test.pl, run unmodified (a) on the shipped CSVs, output compared line by line with the shipped "
+         "auto_tld.c / auto_tld.h / tld-domains.txt (timestamp masked); (b) gentld.pl on Hypothesis-generated CSVs (1-25 unique rows, six types, "
+         "managers starting / not starting with 'Not assigned' or 'Retired' in mixed case, embedded commas, quotes, newlines, non-ASCII), emitted table "
+         "parsed back and compared row by row (order, text, strlen+1, class by the documented rule). Compiled table: every row of punycode.csv / "
+         "raw.csv looked up (is_tld, is_utf8_domain, three ASCII modes, U-label in mode 6531), every proper prefix / suffix / extension of a row and "
+         "random labels absent from the CSV must not be found; CSV rows must be unique lower-case A-labels; tld-domains.txt line k = raw row k. "
+         "Non-trivial = a table row, an absent near-miss label, an output line, or a generated CSV with at least one override row; distinct by content hash.",
+    assumptions=["Perl interpreter and tools/perl5shim/Text/CSV.pm (stand-in for the uninstalled Text::CSV) are trusted",
+                 "independent CSV reader and class rule in oracle/ref.hpp and tools/c11_py.py"],
+    min_evaluations=dict(quick=20_000, thorough=50_000),
+    extra_cov=lambda m: dict(programs=2 + m["stages"].get("gencsv", {}).get("evaluations", 0), disagreements_checked=0,
+                             explanation="programs = the two shipped generator runs plus one gentld.pl run per generated CSV; no disagreement was found on this run"),
+    technique="translation validation by differential: regenerate-and-diff of the shipped artefacts, row-by-row lookup of the compiled table against an independent CSV reader, Hypothesis-generated CSVs through the unmodified generator",
+    level_text="Translation validation of the CSV -> table step: the shipped translation is re-run and compared completely; the compiled table is "
+               "queried for every source row and for its near misses; the translator itself is exercised on generated inputs covering the branches "
+               "the shipped data never takes (Retired).",
+    level_note="Trusted: perl, the Text::CSV stand-in, the independent CSV reader; libidn2 for U-label rows.",
+)
+
 
 def stages_for(pid, tier):
     out = []
